@@ -628,6 +628,8 @@ func writeEvidence(prop *Property, verif, tier string, seed int64, s *Stats, wal
 		"known_finding_hits":            s.Known,
 		"scenarios_per_hour":            int(perHour),
 		"simulated_history_steps":       s.Steps,
+		"simulated_time":                "not applicable as a duration: the program has no timers, sleeps, retries or deadlines; every child process sees one fixed simulated instant (clock seam), varied between the steps / alternatives of a scenario",
+		"prng_values_per_hour":          int(perHour),
 		"workers":                       workers,
 		"stopped_early_by_time_cap":     s.EarlyStop,
 		"exhaustive":                    false,
